@@ -41,6 +41,10 @@ def render(c):
         line, b, a = "vpa L %s R" % word, ["L"], ["R"]
     else:
         line, b, a = "vpa L %s" % word, ["L"], []
+    if c.get("realin"):
+        # the command also has a real input redirection typed by the user: the produced text must still be an argument
+        files = dict(files, fin="input\n")
+        line += " < fin" if c["realin"] == "lt" else " <<< word"
     return line + " ; vpa probe", b, a, files, vh, env
 
 
@@ -97,6 +101,12 @@ def runner(rep, tier, seed, replay):
         raise ToolError("reference composition re-reads produced text:\n" + r.violation[:1500])
     check_action_coverage(r, ["Finish"])
     rep.add_tlc(r)
+    extra = []
+    for c in cases:
+        if c["del"] in ("var", "bvar", "dsub", "bqsub") and c["pos"] != "last" and chars(c["pay"]) in ("<", "<<<", "<f", "a>b", "|", ">"):
+            extra.append(dict(c, realin="lt"))
+            extra.append(dict(c, realin="here"))
+    cases += extra
     log("[C13] %d cases" % len(cases))
     jobs, meta = [], []
     for c in cases:
